@@ -45,6 +45,11 @@ def gen_cases(tier, seed):
         cases.append({'scenario': 'mass-abandon', 'how': ['timeouts', 'stream-close'][i % 2], 'mode': 'async' if (i // 2) % 2 == 0 else 'sync',
                       'n': nm[(i // 4 + i) % len(nm)], 'then': ['exit', 'exit', 'final-call'][i % 3], 'workers': [8, 48][(i // 3) % 2],
                       'seed': rng.randrange(1 << 30)})
+    # callers that give up while *waiting for room* (backpressure off, deadline around the service time) next to patient callers,
+    # capacity 1-2: a wake-up spent on a waiter that is just timing out must not be lost for the others
+    for i in range(12 if tier == 'quick' else 120):
+        cases.append({'scenario': 'enqueue-timeouts', 'mode': 'async' if i % 4 == 3 else 'sync', 'capacity': 1 + (i % 3 == 2), 'victims': 3 + i % 3,
+                      'site': i % 4 != 1, 'seed': rng.randrange(1 << 30)})
     return cases
 
 
@@ -172,9 +177,155 @@ def _mass_abandon(case):
     return res
 
 
+def _enqueue_timeouts(case):
+    import threading as _th
+
+    from mpservice._common import TimeoutError as MpTimeout
+    from mpservice.mpserver import AsyncServer, Server, ServerBacklogFull, ThreadServlet
+
+    rng = random.Random(case['seed'])
+    cap = case['capacity']
+    viol = []
+    obs = {'lifetimes': 1, 'enqueue_timeout_lifetimes': 1, 'abandoned_calls': 0, 'gave_up_waiting_for_room': 0, 'witness_requests': 0, 'final_calls': 0}
+    is_async = case['mode'] == 'async'
+    server = (AsyncServer if is_async else Server)(ThreadServlet(ST.TagWorker, tag='A', num_threads=cap), capacity=cap)
+    mu = _th.Lock()
+    plans = [[rng.uniform(0.003, 0.03) for _ in range(80)] for _ in range(case['victims'])]
+    fz = schedfuzz.SchedFuzz(seed=case['seed'], p=0.0) if case['site'] and not is_async else schedfuzz.NullFuzz()
+    # a waiter whose timed wait has just expired is slow to get the lock back (it is still listed as a waiter meanwhile): a legal schedule
+    fz.add_site(_th.Condition.wait, 'self._acquire_restore(saved_state)', prob=1.0, delay=0.003, where='before', name='condition-wait-timeout-reacquire')
+
+    def note_witness(t, y):
+        obs['witness_requests'] += 1
+        if y != ('A', t):
+            if isinstance(y, ServerBacklogFull) and y.args[0] < cap:
+                mech = 'abandon/witness-not-admitted-although-room'
+            else:
+                mech = 'abandon/witness-lost' if isinstance(y, (MpTimeout, TimeoutError, ServerBacklogFull)) else 'abandon/witness-wrong'
+            viol.append({'mech': mech, 'msg': f'patient request {t[:3]} (4 s deadline, capacity {cap}) got {y!r}; it started waiting for room right behind a caller whose patience ran out about when the slot was freed'})
+
+    S = 0.02
+    rounds = 36
+
+    def sync_body():
+        # rounds: a holder takes the last slot for S seconds; a victim starts waiting for room with a deadline that expires
+        # within a few ms of the holder's completion (swept); a patient caller starts waiting right behind the victim.
+        for r in range(rounds):
+            if viol:
+                break
+            out = {}
+
+            def holder(k):
+                try:
+                    server.call(tok(50 + k, r, S), timeout=10, backpressure=False)
+                except Exception as e:  # noqa: BLE001
+                    out['holder'] = e
+
+            hs = [_th.Thread(target=holder, args=(k,), name=f'holder-{k}') for k in range(cap)]
+            for h in hs:
+                h.start()
+            t_end = time.monotonic() + 5
+            while server.backlog < cap and time.monotonic() < t_end:
+                time.sleep(0.0005)
+            t_full = time.monotonic()
+            delta = (-6 + (r % 12)) * 0.001  # victim's patience relative to the remaining service time
+            vdl = max(0.002, (S + delta) / 0.99)
+
+            def victim():
+                try:
+                    server.call(tok(1, r, 0.001), timeout=vdl, backpressure=False)
+                except ServerBacklogFull:
+                    with mu:
+                        obs['gave_up_waiting_for_room'] += 1
+                except (MpTimeout, TimeoutError):
+                    with mu:
+                        obs['abandoned_calls'] += 1
+
+            def witness():
+                t = tok(100, r, 0.001)
+                try:
+                    y = server.call(t, timeout=4, backpressure=False)
+                except Exception as e:  # noqa: BLE001
+                    y = e
+                with mu:
+                    note_witness(t, y)
+
+            v = _th.Thread(target=victim, name='victim')
+            w = _th.Thread(target=witness, name='witness')
+            v.start()
+            time.sleep(0.002)
+            w.start()
+            for t in hs + [v, w]:
+                t.join()
+
+    async def async_body():
+        for r in range(rounds):
+            if viol:
+                break
+            hs = [asyncio.ensure_future(server.call(tok(50 + k, r, S), timeout=10, backpressure=False)) for k in range(cap)]
+            t_end = time.monotonic() + 5
+            while server.backlog < cap and time.monotonic() < t_end:
+                await asyncio.sleep(0.0005)
+            delta = (-6 + (r % 12)) * 0.001
+            vdl = max(0.002, (S + delta) / 0.99)
+
+            async def victim():
+                try:
+                    await server.call(tok(1, r, 0.001), timeout=vdl, backpressure=False)
+                except ServerBacklogFull:
+                    obs['gave_up_waiting_for_room'] += 1
+                except (MpTimeout, TimeoutError):
+                    obs['abandoned_calls'] += 1
+
+            async def witness():
+                t = tok(100, r, 0.001)
+                try:
+                    y = await server.call(t, timeout=4, backpressure=False)
+                except Exception as e:  # noqa: BLE001
+                    y = e
+                note_witness(t, y)
+
+            v = asyncio.ensure_future(victim())
+            await asyncio.sleep(0.002)
+            w = asyncio.ensure_future(witness())
+            await asyncio.gather(v, w, *hs, return_exceptions=True)
+
+    def lifetime():
+        try:
+            if is_async:
+                async def main():
+                    async with server:
+                        await async_body()
+                asyncio.run(main())
+            else:
+                with server:
+                    with fz:
+                        sync_body()
+        except Exception as e:  # noqa: BLE001
+            viol.append({'mech': 'abandon/exit-raised', 'msg': f'server context raised {e!r}'})
+
+    try:
+        watch.run_bounded(lifetime, BOUND, 'server lifetime')
+    except watch.Hang as h:
+        viol.append({'mech': 'abandon/hang', 'msg': 'server lifetime with callers giving up waiting for room did not finish; stacks stable', 'stacks': h.stacks})
+        return {'violations': viol, 'obs': obs, 'exit_after': True}
+    except watch.Inconclusive as e:
+        return {'violations': viol, 'obs': obs, 'inconclusive': str(e), 'exit_after': True}
+    st = fz.stats()
+    res = {'violations': viol[:4], 'obs': obs, 'nontrivial': obs['gave_up_waiting_for_room'] > 0 and obs['witness_requests'] > 0, 'fuzz': st if case['site'] and not is_async else None,
+           'sig': hash(('enq-to', case['mode'], cap, case['seed'])) & 0xFFFFFFFFFFFF,
+           'sample': {'scenario': 'enqueue-timeouts', 'mode': case['mode'], 'capacity': cap, 'victims': case['victims'], 'gave_up_waiting_for_room': obs['gave_up_waiting_for_room'],
+                      'witness_requests': obs['witness_requests'], 'site_hits': st['site_hits']}}
+    if viol:
+        res['exit_after'] = True
+    return res
+
+
 def run_case(case):
     if case['scenario'] == 'mass-abandon':
         return _mass_abandon(case)
+    if case['scenario'] == 'enqueue-timeouts':
+        return _enqueue_timeouts(case)
     import mpservice.mpserver._server as SV
     import mpservice.streamer._streamer as S
     from mpservice._common import TimeoutError as MpTimeout
